@@ -142,14 +142,16 @@ class MDOParallelChain(ProcessDiscipline):
         self._set_disciplines_diff_inputs(input_names)
         jacobians = self.parallel_lin.execute(self._get_input_data_copies())
         self.jac = {}
-        # Update jacobians according to input order of priority
-        for discipline_jacobian in jacobians:
-            for output_name, output_jacobian in discipline_jacobian.items():
-                chain_jacobian = self.jac.get(output_name)
-                if chain_jacobian is None:
-                    chain_jacobian = {}
-                    self.jac[output_name] = chain_jacobian
-                chain_jacobian.update(output_jacobian)
+        # Update jacobians according to input order of priority:
+        # as for the output data,
+        # the last discipline defining an output defines its whole Jacobian,
+        # which is empty when this discipline is not differentiated.
+        for discipline, discipline_jacobian in zip(self.disciplines, jacobians):
+            for output_name in discipline.io.output_grammar:
+                if output_name in discipline_jacobian or output_name in self.jac:
+                    self.jac[output_name] = dict(
+                        discipline_jacobian.get(output_name, {})
+                    )
 
         self._init_jacobian(
             input_names,
